@@ -318,7 +318,12 @@ func (shiftedHasher) HashBytes(m []byte) (*big.Int, error) {
 }
 func (shiftedHasher) Prime() *big.Int { return new(big.Int).Set(constants.Q) }
 
-type smallHasher struct{ p *big.Int }
+// shared: Prime() hands out the hasher's own number, not a copy (the Hasher interface does not ask for one): the library
+// must treat it as read-only
+type smallHasher struct {
+	p      *big.Int
+	shared bool
+}
 
 func (s smallHasher) Hash(in []*big.Int) (*big.Int, error) {
 	if len(in) == 0 {
@@ -347,7 +352,12 @@ func (s smallHasher) HashBytes(m []byte) (*big.Int, error) {
 	}
 	return acc, nil
 }
-func (s smallHasher) Prime() *big.Int { return new(big.Int).Set(s.p) }
+func (s smallHasher) Prime() *big.Int {
+	if s.shared {
+		return s.p
+	}
+	return new(big.Int).Set(s.p)
+}
 
 // poison hasher: installed as the global default while a custom hasher is under test.
 type poisonHasher struct{}
@@ -372,7 +382,12 @@ func hShifted() HSpec {
 }
 func hSmall(p int64) HSpec {
 	bp := big.NewInt(p)
-	return HSpec{fmt.Sprintf("small%d", p), J{"small": bp.String()}, smallHasher{bp}, bp}
+	return HSpec{fmt.Sprintf("small%d", p), J{"small": bp.String()}, smallHasher{p: bp, shared: true}, big.NewInt(p)}
+}
+
+// hSmallShared: the same hasher handing out its own prime
+func hSmallShared(p int64) HSpec {
+	return HSpec{fmt.Sprintf("small%d", p), J{"small": fmt.Sprint(p)}, smallHasher{p: big.NewInt(p), shared: true}, big.NewInt(p)}
 }
 
 func allHashers() []HSpec {
